@@ -297,7 +297,32 @@ def _restrict(model, rep):
         if name == "dataclasses.replace":
             cap["replace"] = kwargs
             return "OUT"
+        if name in ("numpy.isin", "numpy.in1d", "numpy.nonzero",
+                    "numpy.where", "numpy.setdiff1d", "numpy.union1d",
+                    "numpy.flatnonzero"):
+            r = Other(f"{name.split('.')[-1]}(...)")
+            return (r,) if name in ("numpy.nonzero", "numpy.where") else r
         return NotImplemented
+
+    class Other:
+        """an index set built some other way: carried along so that the
+        comparison with the expected construction fails with a report"""
+        skv_isarray = True
+
+        def __init__(self, text):
+            self.text = text
+
+        def skv_getattr(self, name):
+            return PyFunc(lambda a, k, n: Other(f"{self.text}.{name}(..)"))
+
+        def skv_getitem(self, ix):
+            return Other(f"{self.text}[..]")
+
+        def skv_len(self):
+            return Poly.sym("nother")
+
+        def __repr__(self):
+            return self.text
 
     class Isect:
         skv_isarray = True
@@ -389,6 +414,108 @@ def _transformations(model, rep):
            "coordinates", fn.lineno)
 
 
+def _transform_values(model, rep):
+    """Symbolic run of the coordinate transformations on a point array with
+    rows (x0, x1, x2): what ends up in row i of the new mesh."""
+    R4 = "C18-R4"
+    mcls = model.cls(MESH, "Mesh")
+    X = [Poly.sym(f"x{i}") for i in range(3)]
+
+    class Pts:
+        skv_isarray = True
+
+        def __init__(self, rows, origin=False):
+            self.rows, self.origin = list(rows), origin
+
+        def skv_getattr(self, name):
+            if name == "copy":
+                return PyFunc(lambda a, k, n: Pts(self.rows))
+            if name == "shape":
+                return (len(self.rows), Poly.sym("nv"))
+            raise Unsupported("points." + name)
+
+        def skv_getitem(self, ix):
+            if isinstance(ix, Fraction):
+                ix = int(ix)
+            if isinstance(ix, int):
+                return self.rows[ix]
+            raise Unsupported("points index")
+
+        def skv_setitem(self, ix, v):
+            if isinstance(ix, Fraction):
+                ix = int(ix)
+            if not isinstance(ix, int):
+                raise Unsupported("points store")
+            self.rows[ix] = v
+
+        def skv_len(self):
+            return len(self.rows)
+
+    def run_(name, args, kwargs=None, hook=None):
+        cap = {}
+
+        def h(interp, nm, a, k, node):
+            if nm == "dataclasses.replace":
+                cap["kw"] = k
+                return "OUT"
+            if nm == "numpy.array" and isinstance(a[0], list):
+                return Pts(a[0])
+            if hook:
+                return hook(interp, nm, a, k, node)
+            return NotImplemented
+        pts = Pts(X, origin=True)
+        obj = Obj(mcls, {"p": pts, "doflocs": pts,
+                         "dim": PyFunc(lambda a, k, n: 3)})
+        fn = mcls.methods[name]
+        try:
+            Interp(model, call_hook=h).call(fn, args, kwargs or {},
+                                            self_obj=obj)
+        except (Unsupported, Raised) as e:
+            raise AnalysisError(f"Mesh.{name}: {e}")
+        out = cap.get("kw", {}).get("doflocs")
+        if not isinstance(out, Pts):
+            raise AnalysisError(f"Mesh.{name}: new points not captured")
+        if pts.rows != X:
+            out = None       # operand modified (reported by :copies)
+        return fn, out
+    # morphed: every function sees the original coordinates
+    seen = []
+
+    def mk(i):
+        def f(a, k, n):
+            seen.append((i, list(a[0].rows) if isinstance(a[0], Pts)
+                         else None))
+            return Poly.sym(f"F{i}")
+        return PyFunc(f)
+    fn, out = run_("morphed", [mk(0), None, mk(2)])
+    ok = out is not None and out.rows == [Poly.sym("F0"), X[1],
+                                          Poly.sym("F2")] and \
+        [s_[1] for s_ in seen] == [X, X]
+    late = [i for i, rows in seen if rows != X]
+    _v(rep, R4, ok, "Mesh.morphed:values",
+       "row i = f_i(original points); rows without a function unchanged",
+       "Mesh.morphed",
+       (f"function {late[0]} is applied to points whose earlier rows have "
+        f"already been replaced: the coordinate maps are composed instead "
+        f"of applied simultaneously" if late else
+        "new rows are not f_i(original points) with the others kept"),
+       fn.lineno)
+    # scaled / translated
+    F = [Poly.sym(f"c{i}") for i in range(3)]
+    fn, out = run_("scaled", [list(F)])
+    _v(rep, R4, out is not None and out.rows == [X[i] * F[i]
+                                                  for i in range(3)],
+       "Mesh.scaled:values", "row i = x_i * factor_i", "Mesh.scaled",
+       "the scaled coordinates are not x_i * factor_i row by row",
+       fn.lineno)
+    fn, out = run_("translated", [list(F)])
+    _v(rep, R4, out is not None and out.rows == [X[i] + F[i]
+                                                  for i in range(3)],
+       "Mesh.translated:values", "row i = x_i + shift_i", "Mesh.translated",
+       "the translated coordinates are not x_i + shift_i row by row",
+       fn.lineno)
+
+
 def run(model: Model, rep, tier: str) -> None:
     rep.rule("C18-R1", "surgery operations set both tag fields or provably "
              "keep cell and facet indices")
@@ -404,6 +531,7 @@ def run(model: Model, rep, tier: str) -> None:
     split_rules(model, rep, "C18-R2", "C18-R2", "C18-R2")
     _joins(model, rep)
     _restrict(model, rep)
+    _transform_values(model, rep)
     _transformations(model, rep)
     rep.require_min("C18-R1", 8)
     rep.require_min("C18-R2", 9)
@@ -414,6 +542,17 @@ def run(model: Model, rep, tier: str) -> None:
 _QU = "skfem/mesh/mesh_quad_1.py"
 _HE = "skfem/mesh/mesh_hex_1.py"
 MUTANTS = [
+    ("morphed feeds each function the partly morphed points",
+     (FM, "            p[i] = arg(self.p)", "            p[i] = arg(p)"),
+     "C18-R4"),
+    ("restrict numbers the facets whose vertices survive",
+     (FM, "            facets = np.unique(self.t2f[:, elements])",
+      "            facets = np.nonzero(np.isin(self.facets, ix).all(axis=0))"
+      "[0]"), "C18-R4"),
+    ("scaled applies the factors shifted by one row",
+     (FM, "            doflocs=np.array([self.doflocs[itr] * factors[itr]",
+      "            doflocs=np.array([self.doflocs[itr] * factors[itr - 1]"),
+     "C18-R4"),
     ("oriented() overwrites a vertex instead of swapping",
      ("skfem/mesh/mesh_simplex.py", "        t[1, flip] = t0\n",
       "        t[1, flip] = t1\n"), "C18-R1"),
